@@ -165,6 +165,9 @@ func (s *Share[FE]) UnmarshalCBOR(data []byte) error {
 	if err != nil {
 		return errs.Wrap(err).WithMessage("failed to unmarshal Shamir Share")
 	}
+	if dto == nil {
+		return sharing.ErrIsNil.WithMessage("Share DTO is nil")
+	}
 
 	s2, err := NewShare(dto.ID, dto.V, nil)
 	if err != nil {
